@@ -415,7 +415,7 @@ mod imp {
             }
             let re1 = to_re::<LA>(&a, &mut s.nm);
             let re2 = to_re::<LA>(&b, &mut s.nm);
-            let proof = match catch_op(|| s.eg.explain_equivalence(re1, re2)) {
+            let proof = match { let _ph = crate::exec::phase("C07"); catch_op(|| s.eg.explain_equivalence(re1, re2)) } {
                 Ok(p) => p,
                 Err(p) => return Some(panic_violation("C07", "explain_returns", &p, at)),
             };
@@ -577,7 +577,7 @@ mod imp {
                         let tjr = normalise_binders(&tj.rename(&rho, &mut fr), 80);
                         let re1 = to_re::<LS>(&ti, &mut s.nm);
                         let re2 = to_re::<LS>(&tjr, &mut s.nm);
-                        let proof = match catch_op(|| s.eg.explain_equivalence(re1, re2)) {
+                        let proof = match { let _ph = crate::exec::phase("C07"); catch_op(|| s.eg.explain_equivalence(re1, re2)) } {
                             Ok(p) => p,
                             Err(p) => {
                                 if p.is_harness() {
@@ -631,7 +631,7 @@ mod imp {
                                 }
                                 let r1 = to_re::<LS>(&pt, &mut s.nm);
                                 let r2 = to_re::<LS>(&p2, &mut s.nm);
-                                match catch_op(|| s.eg.explain_equivalence(r1, r2)) {
+                                match { let _ph = crate::exec::phase("C07"); catch_op(|| s.eg.explain_equivalence(r1, r2)) } {
                                     Err(p) => {
                                         out.violations.push(panic_violation("C07", "explain_returns", &p, k));
                                         return finish(out, run, &s, any_change);
